@@ -297,9 +297,40 @@ impl C06 {
         // a fifth of the full-alphabet pictures have rows without any repetition (one literal run up to the 64-cell limit) in
         // which, right at a multiple of 64, one cell repeats the character, the attribute or both of its left neighbour
         let literal = !small && rng.chance(1, 3);
+        // a quarter of the other full-alphabet pictures have rows in which stretches of cells share their colours and differ
+        // in the character (attribute-compressed runs), or share the character and differ in colours (character-compressed
+        // runs), and inside a stretch single cells toggle only the blink flag, only the font page or only one colour
+        let stretches = !small && !literal && rng.chance(1, 3);
         let rows = (0..h)
             .map(|_| {
                 let mut row: Vec<Cell> = Vec::with_capacity(w as usize);
+                if stretches {
+                    while (row.len() as i32) < w {
+                        let base: Cell = (rng.byte(), rng.below(if two { 8 } else { 16 }) as u8, rng.below(if ice { 16 } else { 8 }) as u8, !ice && rng.bool(), if two { rng.below(2) as u8 } else { 0 });
+                        let share_attr = rng.bool();
+                        let n = 2 + rng.usize(12);
+                        for _ in 0..n {
+                            if (row.len() as i32) >= w {
+                                break;
+                            }
+                            let mut c = base;
+                            if share_attr {
+                                c.0 = rng.byte();
+                            } else {
+                                c.1 = rng.below(if two { 8 } else { 16 }) as u8;
+                                c.2 = rng.below(if ice { 16 } else { 8 }) as u8;
+                            }
+                            match rng.usize(8) {
+                                0 if !ice => c.3 = !c.3,
+                                1 if two => c.4 ^= 1,
+                                2 => c.1 = (c.1 + 1) % if two { 8 } else { 16 },
+                                _ => {}
+                            }
+                            row.push(c);
+                        }
+                    }
+                    return row;
+                }
                 if literal {
                     while (row.len() as i32) < w {
                         let prev = row.last().copied();
@@ -371,7 +402,7 @@ impl C06 {
             w,
             ice,
             rows,
-            class: format!("random-{}-{}{}{tail}", if small { "small" } else if literal { "literal" } else { "full" }, if two { "2fonts" } else { "1font" }, if sauce { "-sauce" } else { "" }),
+            class: format!("random-{}-{}{}{tail}", if small { "small" } else if literal { "literal" } else if stretches { "stretches" } else { "full" }, if two { "2fonts" } else { "1font" }, if sauce { "-sauce" } else { "" }),
             sauce,
         }
     }
@@ -421,7 +452,7 @@ impl Prop for C06 {
         "C06"
     }
     fn rule(&self) -> &'static str {
-        "rows are independent in XBin compression (the run state resets per row), so exhaustive rows are packed 4096 per buffer: ALL rows of width 1..=7 over 3 characters x 3 attributes x 2 font pages (thorough; quick: widths 1..=6 completely plus a seeded sample of width 7) and all rows of width 1..=10 over a 2x2 alphabet; plus seeded random buffers of width 1..=200 x height 1..=30 from small and full alphabets, one or two fonts, blink or ice, widths 63/64/65/127/128/129 forced; a third of the full-alphabet pictures have repetition-free rows (one literal run up to the 64-cell limit) with a cell at column 64..66 / 128..130 / 192..194 that repeats the character, the attribute or both of its left neighbour; a third of the random pictures are saved with a SAUCE record, half of those end in one to three cells whose character or attribute byte is 0x1A (the EOF marker in front of the record). Oracles: (1) a strict decoder written from doc/FileFormats/x_bin.htm applied to Buffer::to_bytes(\"xb\", compress) - every run 1..=64 cells, no run crosses a row, every row decodes to exactly the width, no trailing bytes other than EOF + the 128-byte SAUCE record when one was asked for, decoded (char, attribute incl. font-page bit) == source; (2) engine loader: compressed == uncompressed == source per cell incl. font page. distinct_nontrivial = distinct sampled (block, row) of the exhaustive part and (width, class, first cells) of the random part"
+        "rows are independent in XBin compression (the run state resets per row), so exhaustive rows are packed 4096 per buffer: ALL rows of width 1..=7 over 3 characters x 3 attributes x 2 font pages (thorough; quick: widths 1..=6 completely plus a seeded sample of width 7) and all rows of width 1..=10 over a 2x2 alphabet; plus seeded random buffers of width 1..=200 x height 1..=30 from small and full alphabets, one or two fonts, blink or ice, widths 63/64/65/127/128/129 forced; a third of the full-alphabet pictures have repetition-free rows (one literal run up to the 64-cell limit) with a cell at column 64..66 / 128..130 / 192..194 that repeats the character, the attribute or both of its left neighbour; a quarter of the others have stretches of cells that share their colours (or their character) in which single cells toggle only the blink flag, only the font page or only one colour; a third of the random pictures are saved with a SAUCE record, half of those end in one to three cells whose character or attribute byte is 0x1A (the EOF marker in front of the record). Oracles: (1) a strict decoder written from doc/FileFormats/x_bin.htm applied to Buffer::to_bytes(\"xb\", compress) - every run 1..=64 cells, no run crosses a row, every row decodes to exactly the width, no trailing bytes other than EOF + the 128-byte SAUCE record when one was asked for, decoded (char, attribute incl. font-page bit) == source; (2) engine loader: compressed == uncompressed == source per cell incl. font page. distinct_nontrivial = distinct sampled (block, row) of the exhaustive part and (width, class, first cells) of the random part"
     }
     fn meta(&self, ctx: &Ctx) -> Value {
         json!({"floor_evaluations": 200, "floor_distinct": ctx.tier.pick(1000u64, 5000u64),
